@@ -238,12 +238,43 @@ fn c12_local_revise_max_streams() {
     revise_step(MAX_STREAMS_LIMIT);
 }
 
-/// PENDING (suspected genuine defect #11): the transport-parameter decoder accepts any VarInt
-/// for initial_max_streams_{bidi,uni} (no `bound` in param/core.rs); `revise_max_streams` passes
-/// it to `increase_limit`, whose `assert!(val <= MAX_STREAMS_LIMIT)` then panics.
+/// The same step for every value the REAL transport-parameter validation accepts
+/// (`ParameterId::InitialMaxStreams{Bidi,Uni}.validate`). On the pinned tree the two parameters had
+/// no bound, the decoder accepted any VarInt and `increase_limit`'s `assert!(val <=
+/// MAX_STREAMS_LIMIT)` was reachable from the peer's TLS extension (genuine defect, fixed in /repo by
+/// "fix: bound initial_max_streams_* and max_ack_delay as RFC 9000 requires"). Kept in the quick tier:
+/// if the bound is dropped again the assert is reachable and this harness fails.
 #[kani::proof]
 #[kani::unwind(7)]
 #[kani::stub(crate::net::tx::ArcSendWakers::wake_all_by, stub_wake_all_by)]
-fn c12_local_revise_max_streams_any_param_pending() {
-    revise_step(VARINT_MAX);
+#[kani::stub(core::fmt::write, stub_fmt_write_c12)]
+fn c12_local_revise_max_streams_validated_param() {
+    use crate::param::{ParameterId, core::ParameterValue};
+    let mut s = any_state::<0>();
+    let (max, un) = (s.max, s.unallocated);
+    let rejected: bool = kani::any();
+    let bi: u64 = kani::any();
+    let uni: u64 = kani::any();
+    kani::assume(bi <= VARINT_MAX && uni <= VARINT_MAX);
+    let vb = ParameterValue::VarInt(crate::varint::VarInt::from_u64(bi).unwrap());
+    let vu = ParameterValue::VarInt(crate::varint::VarInt::from_u64(uni).unwrap());
+    let ok_b = ParameterId::InitialMaxStreamsBidi.validate(&vb).is_ok();
+    let ok_u = ParameterId::InitialMaxStreamsUni.validate(&vu).is_ok();
+    kani::assume(ok_b && ok_u);
+    s.revise_max_streams(rejected, bi, uni);
+    if rejected {
+        assert!(eq2(&s.max, &[bi, uni]));
+    } else {
+        assert!(s.max[0] == if bi > max[0] { bi } else { max[0] });
+        assert!(s.max[1] == if uni > max[1] { uni } else { max[1] });
+    }
+    assert!(eq2(&s.unallocated, &un));
+    kani::cover!(bi == MAX_STREAMS_LIMIT, "largest accepted parameter value");
+    core::mem::forget(s);
+    core::mem::forget(vb);
+    core::mem::forget(vu);
+}
+
+fn stub_fmt_write_c12(_o: &mut dyn core::fmt::Write, _a: core::fmt::Arguments<'_>) -> core::fmt::Result {
+    Ok(())
 }
